@@ -381,7 +381,7 @@ func (r *reconstructor) reconstructBinaryValue(
 
 			num := p.Num + 1
 
-			if num >= len(r.buffers) {
+			if num < 1 || num >= len(r.buffers) {
 				return errInvalidPlaceholderNumValue
 			}
 
@@ -474,7 +474,7 @@ func (r *reconstructor) reconstructMap(rv reflect.Value) error {
 						n := int(num.Float())
 						n++
 
-						if n >= len(r.buffers) {
+						if n < 1 || n >= len(r.buffers) {
 							return errInvalidPlaceholderNumValue
 						}
 
@@ -498,7 +498,7 @@ func (r *reconstructor) reconstructMap(rv reflect.Value) error {
 						n := int(num.Float())
 						n++
 
-						if n >= len(r.buffers) {
+						if n < 1 || n >= len(r.buffers) {
 							return errInvalidPlaceholderNumValue
 						}
 
